@@ -3,7 +3,7 @@
    extracted datatypes.  Run from /verif/extract:
      coqc -Q ../coq K Extract.v *)
 From Coq Require Import Extraction ExtrOcamlBasic ExtrOcamlString.
-From K Require Import Str SetM Linq Sieve Dec Trace Fs World Progs Elf Handler Bitmap Main ConfigInst.
+From K Require Import Str SetM Linq Sieve Dec Trace Fs World Progs Elf Handler Bitmap Main ConfigInst MountParse.
 Extraction Blacklist String List Char Bool.
 Set Extraction Optimize.
 Extraction "model.ml"
@@ -19,4 +19,5 @@ Extraction "model.ml"
   get_elf_interpreter_raw
   bm_create bm_set bm_unset bm_get attr_run
   parse_params common_len main
+  parse_mounts parse_mounts_gen render_mounts
   klunok_load.
